@@ -269,12 +269,12 @@ def evaluate(tag, cases, timeout=900, nshards=16):
     return model, secs
 
 
-def tree_k(rep, pid, binp, seed, n, family=0, maxnodes=12, timeout=900):
+def tree_k(rep, pid, binp, seed, n, family=0, maxnodes=12, timeout=900, key='taffytree'):
     """The whole-tree correspondence as one obligation of `pid`'s check.  Returns the disagreements."""
     t0 = time.time()
     try:
         cases, impl, lossy, summary, idxs = generate(binp, seed, n, 0, family, maxnodes)
-        model, secs = evaluate(pid + 'tt', cases, timeout=timeout)
+        model, secs = evaluate(pid + 'tt' + str(maxnodes), cases, timeout=timeout)
     except RuntimeError as ex:
         rep.add_broken('correspondence', 'complete engine whole-tree K (vh taffytree cases)', str(ex)[-1500:])
         return []
@@ -291,7 +291,7 @@ def tree_k(rep, pid, binp, seed, n, family=0, maxnodes=12, timeout=900):
     for m in model:
         if len(m) == 1 and m[0] in MARKERS:
             markers[MARKERS[m[0]]] = markers.get(MARKERS[m[0]], 0) + 1
-    rep.cov['taffytree'] = {
+    rep.cov[key] = {
         'trees': len(cases), 'family': FAMILY[family], 'max_nodes': maxnodes, 'disagreements': len(bad),
         'seconds': round(time.time() - t0, 1), 'model_seconds_per_shard': secs,
         'implementation_panicked_skipped': summary.get('skipped'), 'model_markers': markers,
